@@ -1040,6 +1040,9 @@ M('C14', 'TDVP basis expansion reads the non-existent Krylov_options (original d
   "self.Krylov_params.subconfig('apply_mpo_options')", "self.Krylov_options.subconfig('apply_mpo_options')",
   'ATTR-defined')
 
+M('C05', 'speigs: dtype passed as the column count of np.eye (original defect)', NPC,
+  "np.eye(k, dtype=a.dtype)", "np.eye(k, a.dtype)", 'FACT-numpy-roles')
+
 # ---------------------------------------------------------------- C16 / C19
 M('C16', 'GMRES restart: relative residual norm used for normalisation (round-3 seed b)', KRY,
   """        self.total_error.append([npc.norm(self.rs[-1]) / self.b_norm])
